@@ -146,12 +146,12 @@ Theorem C04_detach_changes_nothing_else : forall s s', step fixed s LDetach = So
 Proof. exact detach_keeps_running. Qed.
 Print Assumptions C04_detach_changes_nothing_else.
 
-(* a task whose handle never cancelled (detached or not) still runs to completion *)
-Theorem C04_detached_task_completes : forall ls s o,
-  steps fixed init ls = Some s -> o <> OPending ->
-  hcanc s = false -> ep s = EIdle -> hot s = true -> tearing s = false ->
-  exists s', steps fixed s (run_to_completion o) = Some s' /\ completed (wd s') = true
-             /\ has_result (wd s') = true /\ polls s' = S (polls s).
+(* a detached task runs to completion like any other (nobody cancelled it:
+   C04_not_cancelled_unless) *)
+Theorem C04_detached_task_completes : forall o, o <> OPending ->
+  exists s s', steps fixed init [LDetach] = Some s /\ detached s = true /\ hcanc s = false
+               /\ steps fixed s (run_to_completion o) = Some s' /\ completed (wd s') = true
+               /\ has_result (wd s') = true /\ polls s' = 1.
 Proof. exact detached_task_completes. Qed.
 Print Assumptions C04_detached_task_completes.
 
